@@ -433,6 +433,14 @@ def check(prop, tier):
                     continue
             still.append((w, rc, errname))
         crashed = still
+    if crashed and any(r.get("violations") for r in results):
+        # other workers did report violations: those are verified and reported below; the dead
+        # workers are mentioned but do not turn the outcome into "trouble"
+        for w, rc, errname in crashed:
+            tail = open(errname).read()
+            first = [l for l in tail.splitlines() if l.startswith("fatal error:") or l.startswith("panic:")][:1]
+            print("note: worker %d died (exit %s%s) and its crash did not reproduce on replay" % (w, rc, ": " + first[0] if first else ""), flush=True)
+        crashed = []
     if crashed:
         msgs = []
         for w, rc, errname in crashed:
@@ -525,6 +533,8 @@ def check(prop, tier):
         uncontrolled_sites=report.get("uncontrolled") or [],
         unmodelled_sync=report.get("unmodelled") or [],
         components=COMPONENTS[prop],
+        scheduler_mode=(None if not cfg["race"] else ("deterministic (seeded baton passing)" if not (report.get("unmodelled") or []) else
+                        "NATIVE FALLBACK: the instrumented packages use synchronisation the simulator does not model (see unmodelled_sync); tasks ran as ordinary goroutines - race detector, sequential-reference oracle and a 15 s deadlock timeout still apply, schedules are not chosen or replayable")),
         determinism_selftest=selftest,
         cross_process_history_check=history_info,
         sensitivity_selfcheck=sens,
